@@ -47,7 +47,14 @@ Definition first_of (p : protocol) (unary_connect : bool) (max : N) (a : option 
     | UMsg _ :: _ => FMsg
     | UErr REOF :: _ => FEnd
     | UErr (RErr c) :: _ => FErr c
-    | USpecial fl _ :: _ => FSpecial fl
+    | USpecial fl data :: _ =>
+      (* the Connect end-of-stream payload is a JSON object: an empty payload does not
+         parse (internal), whereas an empty gRPC-Web trailer block is a valid one;
+         non-empty special payloads never come first in the generated requests *)
+      match p with
+      | PrConnect => if is_nil data && has_flag fl connect_flag_end_stream then FErr code_internal else FSpecial fl
+      | _ => FSpecial fl
+      end
     | [] => FEnd
     end.
 
